@@ -130,11 +130,27 @@ def mon_flat_memory(case, obs):
         f = t.split(':')
         k = f[0]
         o = out[i]
+        if k == 'lx':
+            # a host load allowed to run past the end of its device (a panic by design): the bytes that fit are stored
+            a = int(f[1], 16)
+            data = bytes.fromhex(f[2])
+            dev = route(a)
+            if dev in MEMS:
+                base, size, _ = MEMS[dev]
+                if len(data) <= size:
+                    for j, b in enumerate(data):
+                        if a - base + j < size:
+                            flat.m[dev][a - base + j] = b
+                    want = 'ok' if a - base + len(data) <= size else 'p'
+                    if o != want:
+                        return 'op %d (%s): host load expected %s, got %s' % (i, t, want, o)
+                    continue
+            return None
         if o == 'p':
             return 'op %d (%s): the library panicked' % (i, t)
         if k in ('rb', 'rh', 'rw', 'oh', 'ow', 'wb', 'wh', 'ww'):
             a = int(f[1], 16)
-            v = int(f[2], 16) if len(f) > 2 else 0
+            v = int(f[2], 16) if len(f) > 2 and k[0] == 'w' else 0
             e = expect_access(flat, k, a, v)
             if e is not None and e != o:
                 return 'op %d (%s): flat byte-array reference expects %s, implementation gave %s' % (i, t, e, o)
